@@ -659,7 +659,20 @@ func (e *Exec) modularCall(st *State, ct *Contract, sig *types.Signature, args [
 			continue
 		}
 		nm := fmt.Sprintf("pre.%s@%s", clauseName(cl, i), calleeName)
+		n0 := len(e.obls)
 		e.oblige(st, "pre", nm, g, where)
+		if len(cl.Props) > 0 && len(e.obls) > n0 {
+			// a precondition stated for one property only (e.g. the hypothesis of a crash invariant) is
+			// checked at the call sites in that property's run; every caller must serve that property
+			e.obls[len(e.obls)-1].Props = cl.Props
+			if e.topCt != nil {
+				for _, pr := range cl.Props {
+					if !has(e.topCt.Serves, pr) {
+						e.trusted(fmt.Sprintf("precondition %s of %s is stated for %s and NOT checked at the call in %s, which does not serve %s", clauseName(cl, i), calleeName, pr, shortKey(e.topCt.Key), pr))
+					}
+				}
+			}
+		}
 		e.assume(st, g)
 	}
 	if e.lockChecking() {
@@ -871,7 +884,11 @@ func (e *Exec) modularCall(st *State, ct *Contract, sig *types.Signature, args [
 		// under verification must hold in the state it leaves behind
 		for i, cl := range e.topCt.CrashInv {
 			if g, ok := e.evalSpec(st, e.topCt.PkgPath, cl.GenFn, e.topArgs, e.entry); ok {
+				n0 := len(e.obls)
 				e.oblige(st, "crash", fmt.Sprintf("crash.%s@%s", clauseName(cl, i), calleeName), g, where)
+				if len(cl.Props) > 0 && len(e.obls) > n0 {
+					e.obls[len(e.obls)-1].Props = cl.Props
+				}
 			}
 		}
 	}
@@ -1087,6 +1104,12 @@ func (e *Exec) quantifier(fr *frame, st *State, forall bool, f Value, where stri
 	e.spec++
 	cp := st.clone()
 	cp.pc = tTrue
+	if cp.oldView != nil {
+		// inside old(e), allocations of the body (the argument array of a variadic call such as
+		// filepath.Join) are written to the old view: they mention the bound variable and must not be
+		// seen by anything evaluated after this quantifier
+		cp.oldView = cp.oldView.clone()
+	}
 	saveTrig := e.triggers
 	e.triggers = nil
 	rs, out := e.runInline(fn, args, bindings, cp, nil)
@@ -1148,6 +1171,9 @@ func (e *Exec) mapSeq(st *State, f Value, sig *types.Signature, where string) Va
 	e.spec++
 	cp := st.clone()
 	cp.pc = tTrue
+	if cp.oldView != nil {
+		cp.oldView = cp.oldView.clone()
+	}
 	rs, out := e.runInline(fn, []Value{k}, bindings, cp, nil)
 	e.spec--
 	e.quant--
